@@ -64,13 +64,14 @@ JudgeRead(q, e) ==
      <<"C16", q = <<>> /\ ~e.eof, <<"empty buffer must report EOF">> >>,
      <<"C16", e.eof /\ g < Total(q), <<"EOF reported while bytes remain buffered", Total(q) - g>> >>,
      <<"C16", q # <<>> /\ e.n > 0 /\ g = 0, <<"no progress: non-empty buffer returned no bytes">> >> >>
-\* e = [k |-> "drain", got |-> segs]  (io.Copy from the buffer into a recorder)
+\* e = [k |-> "drain", got |-> segs]  (io.Copy from the buffer into a recorder, or kfmt.SetOutputSink(recorder))
 JudgeDrain(q, e) ==
   << <<"C16", e.got # q, <<"draining must deliver exactly the buffered bytes, oldest first: contents", q, "got", e.got>> >> >>
 
 \* one monitor step: new contents and checks
 Mon(q, e, cap) ==
   IF e.k = "w" THEN [q |-> AbsWrite(q, e.p, cap), cs |-> JudgeWrite(q, e)]
+  ELSE IF e.k = "pw" THEN [q |-> AbsWrite(q, e.p, cap), cs |-> <<>>]      \* kfmt.Printf into the early buffer (nothing returned)
   ELSE IF e.k = "r" THEN [q |-> AbsRead(q, e.got), cs |-> JudgeRead(q, e)]
   ELSE IF e.k = "drain" THEN [q |-> <<>>, cs |-> JudgeDrain(q, e)]
   ELSE IF e.k = "panic" THEN [q |-> q, cs |-> << <<"C16", TRUE, <<"ring buffer operation panicked or broke the io contract">> >> >>]
